@@ -49,19 +49,19 @@ BASE_ASSUME = [
 PROPS = {
     "C01": {
         "title": "The store behaves as a key-value map for every operation sequence",
-        "rules": [k2.p3_publish_after_append, k3.s1_roles, k2m.p4_merge_per_entry_order, k2m.p5_merge_outputs_before_unlink, k5.p17_read_under_index_guard, k2.p14_rollover_test, k2.p6b_pool_filled],
+        "rules": [k2.p3_publish_after_append, k3.s1_roles, k2m.p4_merge_per_entry_order, k2m.p5_merge_outputs_before_unlink, k5.p17_read_under_index_guard, k2.p14_rollover_test, k2.p6b_pool_filled, k3.s2_live_vs_recovery, k2m.s7_s8_merge_sets],
         "decides": "put publishes exactly the appended record's location, only after a successful append, with the id of the file the bytes went to; delete appends a tombstone, removes the key and reports presence; (fileid,len,pos) keep their roles through every call and struct; merge re-points an entry only to the bytes it just copied, at the offset before advancing, resetting the offset per output; the read happens under the index guard; rollover test after each append",
         "not_decided": "map semantics over histories as behaviour; that len/pos VALUES are right (position arithmetic inside BufWriterWithPos), LRU cache keying, value equality",
     },
     "C02": {
         "title": "Closing and reopening a store preserves exactly its contents, deletions included",
-        "rules": [k3.s2_live_vs_recovery, k4.v1_log_iterator_eof, k1.w7_recovery_read_only, k5.o1_recovery_order, k2m.p5_merge_outputs_before_unlink, k5.ghint_hint_validation, k4.v5_hint_fallback],
+        "rules": [k3.s2_live_vs_recovery, k4.v1_log_iterator_eof, k1.w7_recovery_read_only, k5.o1_recovery_order, k2m.p5_merge_outputs_before_unlink, k5.ghint_hint_validation, k4.v5_hint_fallback, k2m.p4_merge_per_entry_order, k2m.s7_s8_merge_sets, k3.s1_roles],
         "decides": "replaying a record performs the index effects writing it performed (tombstones remove); the sequential decoder stops cleanly exactly at end of file; recovery is read-only and creates one fresh file; files are replayed in ascending numeric id order; a merge always rotates the active file above its outputs (so later writes replay after merged copies)",
         "not_decided": "equality of recovered values over histories; max+1 arithmetic beyond its shape",
     },
     "C03": {
         "title": "A process crash at any instant loses no acknowledged write and corrupts nothing",
-        "rules": [k2.p1_append_flushes, k2.p3_publish_after_append, k2m.p4_merge_per_entry_order, k2m.p5_merge_outputs_before_unlink, k1.w1_file_mutation_api, controls.control("W1"), k1.w7_recovery_read_only, k4.v1_log_iterator_eof, k2m.s7_s8_merge_sets],
+        "rules": [k2.p1_append_flushes, k2.p3_publish_after_append, k2m.p4_merge_per_entry_order, k2m.p5_merge_outputs_before_unlink, k1.w1_file_mutation_api, controls.control("W1"), k1.w7_recovery_read_only, k4.v1_log_iterator_eof, k2m.s7_s8_merge_sets, k5.o1_recovery_order, k3.s2_live_vs_recovery],
         "decides": "order constraints that must hold on every path for every kill point to be safe: an append that returned has flushed; index/ack follow the append; merge never issues an index re-point or hint record for bytes not yet in the file, never unlinks (in ascending order) before outputs are flushed+synced; only create-exclusive+append and whole-file unlink exist; a torn tail is skipped, not fatal",
         "not_decided": "that these order constraints are sufficient; enumeration of crash points as executions",
     },
@@ -73,13 +73,13 @@ PROPS = {
     },
     "C05": {
         "title": "Compaction never changes what any key reads, now or after a restart",
-        "rules": [k2m.p4_merge_per_entry_order, k3.s1_roles, k2m.s7_s8_merge_sets, k2m.p5_merge_outputs_before_unlink, k2m.t1_tombstone_conservation, k5.ghint_hint_validation, k3.s2_live_vs_recovery, k3.s5_trigger_threshold_roles],
+        "rules": [k2m.p4_merge_per_entry_order, k3.s1_roles, k2m.s7_s8_merge_sets, k2m.p5_merge_outputs_before_unlink, k2m.t1_tombstone_conservation, k5.ghint_hint_validation, k3.s2_live_vs_recovery, k3.s5_trigger_threshold_roles, k5.o1_recovery_order, k4.v5_hint_fallback, k5.e2_merge_errors_abort],
         "decides": "merge re-points only to copied+flushed bytes with roles intact and hint mirroring the entry; hint/data ids paired; copy set = removed set; sources outlive synced outputs; active file rotated above outputs; hint admission boundary includes equality; T1: deletion markers conserved across the unlink (known finding on this tree)",
         "not_decided": "value equality before/after as behaviour; which files a threshold setting selects at run time (T1 quantifies over all subsets)",
     },
     "C06": {
         "title": "Over the network SET/GET/DEL answer exactly as the map model, in order",
-        "rules": [k2s.p11_command_application, k2s.p12_handler_loop, k4.v2_parse_frame, k4.v6_write_frame_flushes, k3.s9_command_table, k2.p6b_pool_filled],
+        "rules": [k2s.p11_command_application, k2s.p12_handler_loop, k4.v2_parse_frame, k4.v6_write_frame_flushes, k3.s9_command_table, k2.p6b_pool_filled, k2.p3_publish_after_append, k2.p18_handle_delegation],
         "decides": "one reply per applied command, after the storage call completed, none on error paths, with the prescribed variant and the stored bytes; DEL counts Ok(true); the connection loop is read→parse→apply→reply; Incomplete ⇒ read more; exactly the checked length is consumed on every path and the read buffer is never replaced; every reply is flushed unconditionally; command names matched by full equality",
         "not_decided": "byte-for-byte value equality and segmentation independence as observed behaviour",
     },
@@ -115,7 +115,7 @@ PROPS = {
     },
     "C12": {
         "title": "Hint files are only an accelerator: recovery with or without them agrees",
-        "rules": [k3.s1_roles, k2m.s7_s8_merge_sets, k3.s2_live_vs_recovery, k4.v5_hint_fallback, k5.ghint_hint_validation, k2m.p4_merge_per_entry_order],
+        "rules": [k3.s1_roles, k2m.s7_s8_merge_sets, k3.s2_live_vs_recovery, k4.v5_hint_fallback, k5.ghint_hint_validation, k2m.p4_merge_per_entry_order, k5.e2_merge_errors_abort, k5.o1_recovery_order],
         "decides": "hint record fields mirror the re-pointed index entry by role; hint n describes data n; the hint loader does to the index what the scanner does for live records; only NotFound falls back to the scan of the same id; admission boundary includes the last record",
         "not_decided": "that offsets written equal offsets a scan computes (run-time values)",
     },
@@ -127,7 +127,7 @@ PROPS = {
     },
     "C14": {
         "title": "Data files are append-only and immutable, with ids that only grow",
-        "rules": [k1.w1_file_mutation_api, controls.control("W1"), k1.w7_recovery_read_only, k2.p14_rollover_test, k2m.p5_merge_outputs_before_unlink, k2m.s7_s8_merge_sets],
+        "rules": [k1.w1_file_mutation_api, controls.control("W1"), k1.w7_recovery_read_only, k2.p14_rollover_test, k2m.p5_merge_outputs_before_unlink, k2m.s7_s8_merge_sets, k5.o1_recovery_order],
         "exhaustive": True,
         "decides": "exhaustively over every call site: the only write-capable open is create_new+append; no truncate/rename/set_len/pwrite/MmapMut/seek-on-writer; unlink only in merge on store file names; reopen never opens an old file for writing; a rollover test follows every append; merge rotates the active id above its outputs",
         "not_decided": "'greater than every id the directory has ever contained' (arithmetic over histories)",
@@ -164,7 +164,7 @@ PROPS = {
     },
     "C20": {
         "title": "A failed disk operation is reported and leaves the store consistent",
-        "rules": [k5.e1_no_dropped_result, controls.control("E1"), k2m.p5_merge_outputs_before_unlink, k2.p13_writer_identity_pair, k2.p3_publish_after_append, k2.p1_append_flushes],
+        "rules": [k5.e1_no_dropped_result, controls.control("E1"), k5.e2_merge_errors_abort, k2m.p5_merge_outputs_before_unlink, k2.p13_writer_identity_pair, k2.p3_publish_after_append, k2.p1_append_flushes],
         "decides": "no storage Result is dropped; no buffered output is left to Drop's error-swallowing flush before unlink/Ok; active_fileid and writer change together or not at all on every error path; the index is touched only on the Ok edge of the append; flush errors of append are propagated",
         "not_decided": "the effect of each errno as behaviour; history-shaped fault defects D11/D12 (DESIGN.md section 6)",
     },
